@@ -97,6 +97,11 @@ def cases(tier, seed):
                 c.update({"fout": fo, "fkind": "explicit", "pkind": "explicit", "unused": "none", "linear": "none",
                           "order": order, "loss": loss})
                 add(c)
+    # block D: mh continues from the burned-in state (drift density, see _run_mh_drift)
+    for (ns, nb) in ((5, 40), (1, 25), (12, 60)):
+        for step in (1.0, 0.5):
+            for ms in (0, 1, 2):
+                add({"sampler": "mh_drift", "nsamples": ns, "nburnout": nb, "step": step, "mseed": ms})
     # block B: every placement of the parameters
     for sc in _sampler_cfgs_B(tier):
         for fo in FOUTS:
@@ -124,6 +129,12 @@ def cases(tier, seed):
                             c = dict(sc)
                             c.update({"fout": fo, "fkind": fk, "pkind": pk, "unused": "none", "linear": lin, "order": 2, "loss": loss})
                             add(c)
+            # f and log p are methods of ONE object and share a held tensor (log p's width is a + 0.1)
+            for sk in ("shared", "shared_nn"):
+                for (order, loss) in ORDERS:
+                    c = dict(sc)
+                    c.update({"fout": fo, "fkind": sk, "pkind": sk, "unused": "none", "linear": "none", "order": order, "loss": loss})
+                    add(c)
     return out
 
 
@@ -226,8 +237,52 @@ def _make_callable(kind, names, tensors, body, extra_held=None):
     return m.forward, [], m
 
 
+def _run_mh_drift(cfg):
+    """mh continues from the burned-in state: with log p(x) = c x (c = 200) every rightward proposal is accepted and
+    a leftward one practically never, so the chain is non-decreasing and its state after the burn-in is the largest
+    of the burn-in proposals (read from the logged evaluation points of log p).  Every collected sample must lie at
+    or beyond that state.  Seed-independent up to probability exp(-c * slack)."""
+    from xitorch.integrate import mcquad
+    ns, nb, step = cfg["nsamples"], cfg["nburnout"], cfg["step"]
+    plog, flog = [], []
+
+    def logp(x):
+        plog.append(float(x.detach().reshape(-1)[0]))
+        return 200.0 * x.sum()
+
+    def f(x):
+        flog.append(float(x.detach().reshape(-1)[0]))
+        return x.clone()
+    x0 = torch.zeros(1, dtype=torch.float64)
+    torch.manual_seed(4000 + cfg["mseed"])
+    o = call(mcquad, f, logp, x0, fparams=(), pparams=(), method="mh", nsamples=ns, nburnout=nb, step_size=step)
+    if o.exc is not None:
+        return {"viol": [V("exception:" + _sig(o.exc), {"phase": "forward"}, phase="forward")],
+                "obs": {"exc": _sig(o.exc)}, "status": "exception", "n": 1}
+    viol = []
+    burn = plog[:nb + 1]
+    m_burn = max(burn) if burn else 0.0
+    # the shape probe of f at x0 carries no weight; the samples are the last ns evaluation points of f
+    samples = flog[-ns:]
+    obs = {"p_calls": len(plog), "f_calls": len(flog), "burn_in_end_state": rnd(m_burn, 4),
+           "first_sample": rnd(samples[0], 4) if samples else None}
+    if len(plog) < nb + ns or len(samples) != ns:
+        viol.append(V("mh-evaluation-counts", {"logp_calls": len(plog), "f_calls": len(flog), "nsamples": ns, "nburnout": nb}))
+    elif m_burn > 3.0 * step and min(samples) < m_burn - 1.0 * step:
+        viol.append(V("mh-samples-do-not-continue-from-the-burned-in-state",
+                      {"burn_in_end_state": m_burn, "min_sample": min(samples), "first_sample": samples[0],
+                       "nburnout": nb, "nsamples": ns, "step": step}))
+    mean = float(o.value.detach().reshape(-1)[0])
+    ref = sum(samples) / max(1, len(samples))
+    if abs(mean - ref) > 1e-12 * max(1.0, abs(ref)):
+        viol.append(V("value-is-not-the-weighted-sample-mean", {"observed": mean, "reference": ref, "mh_drift": True}))
+    return {"viol": viol, "obs": obs, "status": "violation" if viol else "ok", "n": 1}
+
+
 def run_case(cfg):
     from xitorch.integrate import mcquad
+    if cfg["sampler"] == "mh_drift":
+        return _run_mh_drift(cfg)
     sampler = cfg["sampler"]
     ns = cfg["nsamples"]
     nbo = cfg.get("nburnout", 0)
@@ -248,8 +303,12 @@ def run_case(cfg):
         if kind == "absent":
             return t
         return t.requires_grad_()
-    fa, fb = mk(F_VALS["a"], fk), mk(F_VALS["b"], fk)
-    pw, pq = mk(P_VALS["w"], pk), mk(P_VALS["q"], pk)
+    shared = fk in ("shared", "shared_nn")
+    fa, fb = mk(F_VALS["a"], "nn" if fk == "shared_nn" else fk), mk(F_VALS["b"], "nn" if fk == "shared_nn" else fk)
+    pw, pq = mk(P_VALS["w"], pk), mk(P_VALS["q"], "nn" if pk == "shared_nn" else pk)
+    if shared:
+        # one object holds a, b, q; log p's width is the held tensor a shifted by a constant
+        pw = fa + (P_VALS["w"] - F_VALS["a"])
     un_t = None
     if unused in ("f_explicit", "p_explicit"):
         un_t = torch.tensor([0.4, -0.2], dtype=torch.float64, requires_grad=True)
@@ -267,8 +326,39 @@ def run_case(cfg):
         logs["p"].append((phase[0], _xkey(x)))
         return logp_math(x, named["w"], named["q"], plin)
 
-    ffcn, fpar, fmod = _make_callable(fk, ["a", "b"], [fa, fb], f_body, un_t if unused == "f_held" else None)
-    pfcn, ppar, pmod = _make_callable(pk, ["w", "q"], [pw, pq], p_body, un_t if unused == "p_held" else None)
+    if shared:
+        import xitorch as _xt
+        wshift = P_VALS["w"] - F_VALS["a"]
+
+        class _ShBase:
+            def f(self, x, *args):
+                return f_body(x, {"a": self.a, "b": self.b}, args)
+
+            def logp(self, x, *args):
+                return p_body(x, {"w": self.a + wshift, "q": self.q}, args)
+
+        if fk == "shared":
+            class Sh(_ShBase, _xt.EditableModule):
+                def __init__(self):
+                    self.a, self.b, self.q = fa, fb, pq
+
+                def getparamnames(self, methodname, prefix=""):
+                    if methodname == "f":
+                        return [prefix + "a", prefix + "b"]
+                    if methodname == "logp":
+                        return [prefix + "a", prefix + "q"]
+                    raise KeyError(methodname)
+        else:
+            class Sh(_ShBase, torch.nn.Module):
+                def __init__(self):
+                    torch.nn.Module.__init__(self)
+                    self.a, self.b, self.q = fa, fb, pq
+        shobj = Sh()
+        ffcn, fpar, fmod = shobj.f, [], shobj
+        pfcn, ppar, pmod = shobj.logp, [], shobj
+    else:
+        ffcn, fpar, fmod = _make_callable(fk, ["a", "b"], [fa, fb], f_body, un_t if unused == "f_held" else None)
+        pfcn, ppar, pmod = _make_callable(pk, ["w", "q"], [pw, pq], p_body, un_t if unused == "p_held" else None)
     if unused == "f_explicit":
         fpar = fpar + [un_t]
     if unused == "p_explicit":
@@ -468,7 +558,9 @@ def run_case(cfg):
     inputs = []
     if fk != "absent":
         inputs += [("a", fa, "f"), ("b", fb, "f")]
-    if pk != "absent":
+    if shared:
+        inputs += [("q", pq, "p")]          # w is a function of the shared tensor a
+    elif pk != "absent":
         inputs += [("w", pw, "p"), ("q", pq, "p")]
     if un_t is not None:
         inputs.append(("unused", un_t, "unused"))
